@@ -27,8 +27,23 @@ def run_diff(payload):
     res = []
     for it in payload["items"]:
         key = tuple(it["sub"]) if it["sub"] is not None else None
+        if it.get("custom"):
+            key = ("custom",) + (key or ())
         if key not in cache:
-            L = list(EXTRACTORS) if key is None else [EXTRACTORS[i] for i in key]
+            if key and key[0] == "custom":
+                # a caller's own extractors next to (a sub-list of) the shipped ones: case-insensitive and case-sensitive
+                # patterns whose filter strings are written in mixed case, as a caller naturally writes them
+                from eyecite.models import StopWordToken, TokenExtractor
+                from eyecite.regexes import space_boundaries_re, strip_punctuation_re
+                sig = ["Cf.", "Accord", "Contra", "But see"]
+                own = [TokenExtractor(space_boundaries_re(strip_punctuation_re(r"(?P<stop_word>cf\.|accord|contra|but see)")),
+                                      StopWordToken.from_match, flags=re.I, strings=sig),
+                       TokenExtractor(space_boundaries_re(strip_punctuation_re(r"(?P<stop_word>Semble|Sed vide)")),
+                                      StopWordToken.from_match, strings=["Semble", "Sed vide"])]
+                base = [EXTRACTORS[i] for i in key[1:]] if len(key) > 1 else list(EXTRACTORS[-5:])
+                L = base + own
+            else:
+                L = list(EXTRACTORS) if key is None else [EXTRACTORS[i] for i in key]
             cache[key] = (L, Tokenizer(extractors=L), AhocorasickTokenizer(extractors=L))
         L, ref, aho = cache[key]
         text = it["text"]
